@@ -42,6 +42,10 @@ pub enum StubScn {
         /// after another in this order (a permutation), not in the order it built them
         #[serde(default)]
         batch_order: Vec<u32>,
+        /// the callers render the stub with `{:?}` before every call (a log line): looking at a
+        /// stub is not a call
+        #[serde(default)]
+        observe: bool,
     },
     Hash {
         backends: usize,
@@ -140,7 +144,7 @@ pub fn gen(rng: &mut Rng) -> StubScn {
                     batch_order.swap(i, j);
                 }
             }
-            StubScn::RoundRobin { backends, tasks, latency, abandon, preempt_permille: *rng.pick(&[0u32, 100, 400, 800]), expired, unpolled, batch_order }
+            StubScn::RoundRobin { backends, tasks, latency, abandon, preempt_permille: *rng.pick(&[0u32, 100, 400, 800]), expired, unpolled, batch_order, observe: rng.chance(250) }
         }
         6 | 7 => StubScn::Hash {
             backends: rng.range(1, 5) as usize,
@@ -176,6 +180,12 @@ fn viol(rule: &str, tags: &[&str], detail: String) -> Violation {
 }
 
 /// A backend that logs which call it received and answers after a scripted latency.
+impl std::fmt::Debug for Backend {
+    fn fmt(&self, f: &mut std::fmt::Formatter<'_>) -> std::fmt::Result {
+        write!(f, "Backend({})", self.idx)
+    }
+}
+
 #[derive(Clone)]
 struct Backend {
     idx: usize,
@@ -202,7 +212,7 @@ impl Stub for Backend {
 
 /// A hasher builder with per-instance state (the mode). Its `Default` is mode 4, a fifth hash
 /// function that no scenario asks for, so a copy that falls back to the default is visible.
-#[derive(Clone)]
+#[derive(Clone, Debug)]
 struct FixedHasher(u8);
 
 impl Default for FixedHasher {
@@ -323,7 +333,7 @@ pub fn run(scn: &StubScn, tape: Tape) -> RunOutput {
             let mut tasks = Vec::new();
             let extra: Rc<RefCell<Vec<Violation>>> = Rc::new(RefCell::new(Vec::new()));
             match scn2 {
-                StubScn::RoundRobin { backends, tasks: per_task, latency, abandon, expired, unpolled, batch_order, .. } => {
+                StubScn::RoundRobin { backends, tasks: per_task, latency, abandon, expired, unpolled, batch_order, observe, .. } => {
                     let stubs: Vec<Backend> = (0..backends).map(|i| Backend { idx: i, sim: sim.clone(), yields: latency[i].0, sleep_ms: latency[i].1 }).collect();
                     let rr = RoundRobin::new(stubs);
                     if !batch_order.is_empty() {
@@ -349,6 +359,10 @@ pub fn run(scn: &StubScn, tape: Tape) -> RunOutput {
                             for k in 0..n {
                                 let req = (t as u64) * 100 + k as u64;
                                 sim_t.log(EvKind::Note { what: "rr_call", a: t as i64, b: req as i64 });
+                                if observe {
+                                    sim_t.count("probe.stub_rendered_with_debug");
+                                    let _ = format!("{rr:?}");
+                                }
                                 let mut ctx = context::current();
                                 if expired.contains(&(t as u32, k)) {
                                     ctx.deadline = sim_t.instant_at(sim_t.now_ms() - 5);
@@ -387,6 +401,9 @@ pub fn run(scn: &StubScn, tape: Tape) -> RunOutput {
                         }
                         handles[0] = ch;
                         for (i, r) in reqs.into_iter().enumerate() {
+                            if clones % 2 == 1 {
+                                let _ = format!("{:?}", handles[i % handles.len()]);
+                            }
                             let res = handles[i % handles.len()].call(context::current(), r).await;
                             sim_t.log(EvKind::Note { what: "hash_done", a: r as i64, b: result_code(&res) });
                         }
